@@ -66,7 +66,7 @@ func (h *Handler) HandleMessage(msg stanza.Message, r xmlstream.TokenReadEncoder
 	if err != nil {
 		return err
 	}
-	start := tok.(xml.StartElement)
+	start, _ := tok.(xml.StartElement)
 	var queryID string
 	for _, attr := range start.Attr {
 		if attr.Name.Local == "queryid" {
